@@ -83,14 +83,6 @@ Fixpoint check_singles (dec : bytes -> bytes) (unzip : bytes -> option bytes) (f
 (* ---------------------------------------------------------------------------------- *)
 (* cases 11 and 12: families of decodes, each over its own single-chunk stream *)
 
-Definition flip_bit (i : N) (frame : bytes) : bytes :=
-  let k := i / 8 in
-  takeN k frame ++
-  match dropN k frame with
-  | [] => []
-  | b :: r => N.lxor b (N.shiftl 1 (i mod 8)) :: r
-  end.
-
 Definition set_length (fmt : Z) (l : N) (template : bytes) : bytes :=
   (if Z.eqb fmt 2 then be24 l else be16 l) ++ dropN (fmt_lenbytes fmt) template.
 
